@@ -203,6 +203,13 @@ func zooCases(thorough bool) []zooCase {
 		"CREATE TABLE z (a, b, c, d, UNIQUE (b), PRIMARY KEY (b DESC)) WITHOUT ROWID",
 		"CREATE TABLE z (a, b, c, d, PRIMARY KEY (b DESC), UNIQUE (b)) WITHOUT ROWID",
 		"CREATE TABLE z (a, b, c, d, UNIQUE (c DESC, b), PRIMARY KEY (c, b DESC)) WITHOUT ROWID",
+		// a primary key on a column declared INTEGER is no rowid alias in a WITHOUT ROWID table (the key is stored first)
+		"CREATE TABLE z (a, b, c INTEGER PRIMARY KEY, d) WITHOUT ROWID",
+		"CREATE TABLE z (a, b, c INTEGER PRIMARY KEY DESC, d) WITHOUT ROWID",
+		"CREATE TABLE z (a, b, c INTEGER, d, PRIMARY KEY (c)) WITHOUT ROWID",
+		"CREATE TABLE z (a, b, c INTEGER, d, PRIMARY KEY (c DESC)) WITHOUT ROWID",
+		"CREATE TABLE z (a INTEGER, b, c INTEGER, d, PRIMARY KEY (c, a)) WITHOUT ROWID",
+		"CREATE TABLE z (a, b, c INTEGER UNIQUE, d INTEGER, PRIMARY KEY (d, c)) WITHOUT ROWID",
 	} {
 		stmts := []string{def, "CREATE INDEX zi0 ON z (d, a)", "CREATE INDEX zi1 ON z (a DESC)"}
 		for i := 0; i < 14; i++ {
@@ -497,6 +504,36 @@ func zooDriver(r *ev.Run, l *lite.DB, img []byte, zc zooCase, art map[string]int
 		if derr != nil || !RowsEq(c.res.Rows, want, true) {
 			r.Violation("C19:zoo:rows", fmt.Sprintf("%s: SELECT %s FROM z through the driver: err=%v, %s", zc.name, strings.Join(list, ", "), derr, firstDiffSafe(c.res.Rows, want)), a2)
 			return
+		}
+	}
+	// the rowid keywords and a name that is no column: SQLite decides whether that is a column of this
+	// table (a WITHOUT ROWID table has no rowid; a column may carry one of the keywords as its name)
+name:
+	for _, n := range []string{"rowid", "oid", "_rowid_", "ROWID", "nosuch"} {
+		for _, c := range t.Cols {
+			if SameID(c, n) {
+				continue name
+			}
+		}
+		for _, list := range [][]string{{n}, {n, "*"}} {
+			want, oerr := l.Query("SELECT " + strings.Join(list, ", ") + " FROM " + QI(t.Name) + " ORDER BY " + t.PKOrder(l))
+			c := &collector{}
+			derr := driverQuery(h, "SELECT "+strings.Join(list, ", ")+" FROM "+t.Name, c)
+			r.Eval(1)
+			r.Trans(1)
+			r.Validated(1)
+			a2 := map[string]interface{}{"case": zc.name, "create": zc.stmts[0], "columns": list}
+			if oerr != nil {
+				if derr == nil {
+					r.Violation("C19:zoo:unknown-column", fmt.Sprintf("%s: SELECT %s FROM z: SQLite says %v, the driver reports no error and %d rows", zc.name, strings.Join(list, ", "), oerr, len(c.res.Rows)), a2)
+					return
+				}
+				continue
+			}
+			if derr != nil || !RowsEq(c.res.Rows, want, true) {
+				r.Violation("C19:zoo:rows", fmt.Sprintf("%s: SELECT %s FROM z through the driver: err=%v, %s", zc.name, strings.Join(list, ", "), derr, firstDiffSafe(c.res.Rows, want)), a2)
+				return
+			}
 		}
 	}
 }
